@@ -661,6 +661,7 @@ static void settle_payload(long r) {
     memcpy(&PAY[p], &NEWPAY, sizeof NEWPAY);
 }
 static const char *real_topic(const char *t, char *buf, size_t n) {
+    if (!strcmp(t, "MOD_ST.")) return "LIBMODULE_MOD_ST";             /* a regular expression matching both module notifications */
     if (!strcmp(t, "CTX_STARTED") || !strcmp(t, "CTX_STOPPED") || !strcmp(t, "MOD_STARTED") || !strcmp(t, "MOD_STOPPED") || !strcmp(t, "CTX_TICK")) { snprintf(buf, n, "LIBMODULE_%s", t); return buf; }
     return t;
 }
@@ -756,7 +757,7 @@ static void exec_action(gw_edge *e) {
     else if (!strcmp(a, "Pill")) r = m_mod_ps_poisonpill(H[m], H[lidx(e->sargs[1])]);
     else if (!strcmp(a, "Subscribe")) {
         /* userdata of the subscription = its pattern (a static string), so that the handler can tell which subscription matched */
-        static const char *tags[] = {"t1", "t2", "t.", "CTX_STARTED", "CTX_STOPPED", "MOD_STARTED", "MOD_STOPPED", "CTX_TICK"};
+        static const char *tags[] = {"t1", "t2", "t.", "MOD_ST.", "CTX_STARTED", "CTX_STOPPED", "MOD_STARTED", "MOD_STOPPED", "CTX_TICK"};
         const char *tag = NULL;
         for (unsigned i = 0; i < sizeof tags / sizeof *tags; i++) if (!strcmp(tags[i], e->sargs[1])) tag = tags[i];
         m_src_flags pf = e->sargs[2][0] == 'L' ? M_SRC_PRIO_LOW : e->sargs[2][0] == 'H' ? M_SRC_PRIO_HIGH : M_SRC_PRIO_NORM;
@@ -1028,12 +1029,12 @@ static int gw_run(const int *prog, int n) {
 #if defined(__has_feature)
 #if __has_feature(address_sanitizer)
     /* what the library allocates behind the allocator hook (compiled regular expressions, duplicated strings) is watched by
-       LeakSanitizer: every 64 programs that ended in a clean state everything still allocated must be reachable */
+       LeakSanitizer: every 2048 programs that ended (and after the first one) in a clean state everything still allocated must be reachable */
     {
         extern int __lsan_do_recoverable_leak_check(void);
         static VP_TLS int lsan_ctr;
-        if (!threaded && is_clean(cur_state) && ++lsan_ctr % 64 == 0 && __lsan_do_recoverable_leak_check()) {
-            gw_mismatch(prog, n, n - 1, "core-lsan-leak", "LeakSanitizer: memory allocated during one of the last 64 programs (all ended with the context released and every reference dropped) is unreachable; allocation stack in the driver output");
+        if (!threaded && is_clean(cur_state) && ++lsan_ctr % 2048 == 1 && __lsan_do_recoverable_leak_check()) {
+            gw_mismatch(prog, n, n - 1, "core-lsan-leak", "LeakSanitizer: memory allocated during one of the last 2048 programs (all ended with the context released and every reference dropped) is unreachable; allocation stack in the driver output");
             if (gw_forked) gw_resume_exit();
             return 1;
         }
